@@ -64,6 +64,13 @@ ASSUMPTIONS = [
     'iterative optimisers fit_optimize* stop on absolute tolerances by design and miss the 1e-4 score '
     'tolerance in 1 of 144 probed extreme-scale fits on the unchanged tree, so they are not run at '
     'extreme scales; a closed-form fitter call running longer than 3 s is reported as does-not-terminate',
+    'conditioning family: sigma_k with eigenvalues log-spaced over a spread of 1, 1e2, 1e3 (thorough also '
+    '1e4) in a random orthogonal basis fixed by VERIF_SEED, 8 and 10 conditions (28 / 45 entries), judged with '
+    'the unchanged closed-form tolerance 1e-7 against the dense GLS optimum.  The unchanged tree passes '
+    'cleanly (largest deficit 1.2e-10) up to spread 1e4 for seeds 0..2; at spread 1e5 (cond(V) ~ 1e10) its '
+    'conjugate-gradient solves (rtol 1e-5, the accuracy the library works with) leave fit_regress, '
+    'fit_regress_nn and fit_select short of the optimum by 1e-5 .. O(1), so spreads above 1e4 are outside '
+    'the bound and nothing is claimed for them',
     'a 1-D sigma_k (variances) is accepted by compare() but documented for no fitter: fitters that '
     'accept it are judged, rejections are recorded in the evidence notes, not reported',
 ]
@@ -91,6 +98,9 @@ BOUNDS = {
                               'combination of data x {1e-8,1,1e6}, basis x {1e-8,1,1e6}, sigma_k x {1e-10,1,1e6} '
                               '(n_cond=5, k=3, stack of 2); 672 fits',
               'pattern descriptors': "'index', unsorted two-digit ints, six-digit ints 100000+j not ascending",
+              'conditioning family': 'fit_regress, fit_regress_nn, fit_select x cosine_cov, corr_cov x sigma_k '
+                                     'eigenvalue spread {1, 1e2, 1e3} x n_cond {8, 10} x k {2, 3} x {None, one '
+                                     'bootstrap vector}, stack of 3; 144 fits',
               'sequences on one model object': 'all ordered pairs of steps (fitter x 6 method/sigma_k + one '
                                                'step with a pattern selection), weighted / select / '
                                                'interpolate, model built from RDMs and from a plain array'},
@@ -103,6 +113,7 @@ BOUNDS = {
                  'start menu': 3,
                  'nnls grid family': 'all sets of 3 and of 4 RDMs (4 conditions, grid {0,1,2}) x fills x methods, '
                                      'every 10th set of 5, 5 conditions (105 RDMs): every 8th triple',
+                 'conditioning family': 'as quick + fit_interpolate, spread 1e4, 3 problems (stack sizes 1-3, 3 fills)',
                  'scale family': 'as quick, 3 problems x every index multiset of the quick plan',
                  'pattern descriptors': "'index', unsorted two-digit ints, six-digit ints 100000+j not ascending",
                  'sequences on one model object': 'ordered pairs (triples for the weighted model, n_cond=4), '
@@ -110,8 +121,8 @@ BOUNDS = {
 }
 DEADLINE = {'quick': 400, 'thorough': 3000}
 
-STIM = [12, 10, 13, 11, 14]           # unsorted descriptor values: position != sorted rank
-BIG = [100003, 100001, 100004, 100002, 100000]   # six-digit, close together, not ascending
+STIM = [12, 10, 13, 11, 14, 19, 15, 18, 16, 17]           # unsorted descriptor values: position != sorted rank
+BIG = [100003, 100001, 100004, 100002, 100000, 100009, 100005, 100008, 100006, 100007]   # six-digit, close together, not ascending
 DESCS = ['index', 'stim', 'big']
 SCALES = {'data': (1e-8, 1.0, 1e6), 'basis': (1e-8, 1.0, 1e6), 'sigma': (1e-10, 1.0, 1e6)}
 CLOSED = ('fit_regress', 'fit_regress_nn', 'fit_select', 'fit_interpolate')
@@ -163,10 +174,20 @@ def _problem(seed, n_cond, k, n_data, fill, mask):
     return basis.tolist(), data.tolist()
 
 
-def _sigma(kind, n_sel, seed):
+COND_SPREADS = (1.0, 1e2, 1e3)
+
+
+def _sigma(kind, n_sel, seed, spread=None):
     """(library argument, reference argument)"""
     if kind == 'none':
         return None, None
+    if kind == 'cond':
+        # eigenvalues log-spaced over [1, spread] in a random orthogonal basis fixed by the seed
+        g = rng_for(seed, 'c08cond', n_sel)
+        q, _ = np.linalg.qr(g.normal(size=(n_sel, n_sel)))
+        s = (q * 10.0 ** np.linspace(0.0, math.log10(spread), n_sel)) @ q.T
+        s = (s + s.T) / 2
+        return s, s
     g = rng_for(seed, 'c08sigma', n_sel)
     if kind == 'spd':
         s = np.round(spd(g, n_sel), 4)
@@ -322,6 +343,17 @@ def shards(tier, seed):
             for method, sigma in METHSIG:
                 out.append({'kind': 'scale', 'fitter': fitter, 'n_cond': n_cond, 'k': k, 'n_data': n_data,
                             'fill': fill, 'mask': [], 'desc': 'big', 'method': method, 'sigma': sigma})
+    # J: conditioning family: whitened closed-form fits (and the pool_rdm / compare paths behind
+    #    them) with sigma_k of eigenvalue spread 1 .. 1e3, enough entries (28, 45) that an
+    #    iterative solve of V x = b needs many iterations; judged against the dense GLS optimum
+    for fitter in (('fit_regress', 'fit_regress_nn', 'fit_select', 'fit_interpolate') if thorough
+                   else ('fit_regress', 'fit_regress_nn', 'fit_select')):
+        for n_cond in (8, 10):
+            for k in (2, 3):
+                for n_data, fill in (((3, 0), (1, 2), (2, 1)) if thorough else ((3, 0),)):
+                    out.append({'kind': 'cond', 'fitter': fitter, 'n_cond': n_cond, 'k': k,
+                                'n_data': n_data, 'fill': fill, 'mask': [],
+                                'desc': DESCS[(n_cond + k) % 3]})
     # F: sigma_k forms accepted by compare() but not documented for the fitters (report only)
     out.append({'kind': 'sigma_forms'})
     return out
@@ -367,7 +399,7 @@ def _build(case, seed, basis=None, data_full=None, lib_subsample=False):
         data = RDMs(np.array(data_sel, dtype=float),
                     pattern_descriptors={'stim': np.array([STIM[p] for p in positions]),
                                          'big': np.array([BIG[p] for p in positions])})
-    sig_lib, sig_ref = _sigma(case['sigma'], len(positions), seed)
+    sig_lib, sig_ref = _sigma(case['sigma'], len(positions), seed, case.get('spread'))
     if sig_lib is not None and sc_s != 1.0:
         sig_lib = sig_lib * sc_s
         sig_ref = sig_ref * sc_s
@@ -764,6 +796,18 @@ def run_shard(shard, ctx):
         return
     if kind == 'sequences':
         _run_sequences_shard(shard, ctx)
+        return
+    if kind == 'cond':
+        n = shard['n_cond']
+        boot = [n - 1, n - 2] + list(range(n - 3, 0, -1)) + [n - 2]     # one twice, one never
+        for method in ('cosine_cov', 'corr_cov'):
+            for spread in COND_SPREADS + ((1e4,) if ctx.tier == 'thorough' else ()):
+                for j, idx in enumerate((None, boot)):
+                    c = dict(shard, kind='fit', method=method, sigma='cond', spread=spread, idx=idx,
+                             perturb=False)
+                    if shard['fitter'] in ('fit_regress', 'fit_regress_nn'):
+                        c['normalize'] = bool((j + int(math.log10(spread)) + shard['k']) % 2)
+                    run_case(c, ctx)
         return
     if kind == 'scale':
         n = shard['n_cond']
